@@ -61,42 +61,41 @@ def gates(ctx, r, F):
         ret = rec["ret"]
         lt = rec["len_tests"]
         req = rec["requested"]
-        # ---- auto-detection
-        idx = 0
-        mode = rec["mode"]
-        if req == "None":
-            # auto-detection: equality tests of the length against the two valid lengths, in either order
-            mode = None
-            seen_false = set()
-            while idx < len(lt) and lt[idx][0] == "Eq" and lt[idx][1] in (KE, KW):
-                k_, truth_ = lt[idx][1], lt[idx][2]
-                idx += 1
-                if truth_:
-                    mode = "Empty" if k_ == KE else "WithVersion"
-                    break
-                seen_false.add(k_)
-            if mode is None:
-                if seen_false == {KE, KW}:
-                    if ret != PE("InvalidStringLength") or rec["events"] or rec["prefix_test"]:
-                        bad.append("auto-detect with neither length returns %s" % sym.fmt(ret)[:60])
-                    kinds.add("InvalidStringLength")
-                else:
-                    bad.append("auto-detect does not decide the mode from len == LEN_IN_STR_EXCEPT_PREFIX / len == LEN_IN_STR (tests %s)" % [(t[0], sym.fmt(t[1]), t[2]) for t in lt[:3]])
-                continue
-        elif req not in ("Some(Empty)", "Some(WithVersion)"):
+        # ---- length gate, decided on the abstract length domain {LEN_IN_STR_EXCEPT_PREFIX, LEN_IN_STR, any other length}:
+        # the path's own (in)equality tests against the two constants select the classes it can be taken for
+        if req not in ("None", "Some(Empty)", "Some(WithVersion)"):
             bad.append("unrecognised prefix request %s" % req)
             continue
-        # ---- the per-mode gate
-        K = KE if mode == "Empty" else KW
-        rest = lt[idx:]
-        if len(rest) != 1 or rest[0][:2] != ("Ne", K):
-            bad.append("mode %s is not gated by len != %s (tests %s)" % (mode, K[1].rsplit("::", 1)[-1], [(t[0], sym.fmt(t[1]), t[2]) for t in rest]))
+        if any(t[1] not in (KE, KW) for t in lt):
+            bad.append("length compared with %s" % [sym.fmt(t[1]) for t in lt if t[1] not in (KE, KW)][:2])
             continue
-        gate_bb = rest[0][3]
-        if rest[0][2]:
-            if ret != PE("InvalidStringLength") or rec["events"] or rec["prefix_test"]:
-                bad.append("failed length gate returns %s (events %d)" % (sym.fmt(ret)[:60], len(rec["events"])))
+        classes = []
+        for cls in ("E", "W", "other"):
+            ok_cls = True
+            for (op_, k_, truth_, _bb) in lt:
+                equal = (cls == "E" and k_ == KE) or (cls == "W" and k_ == KW)
+                holds = equal if op_ == "Eq" else (not equal)
+                if holds != truth_:
+                    ok_cls = False
+            if ok_cls:
+                classes.append(cls)
+        if not classes:
+            continue  # contradictory tests: infeasible path
+        requested_mode = {"Some(Empty)": "Empty", "Some(WithVersion)": "WithVersion"}.get(req)
+        good_for = lambda cls: (cls != "other") if requested_mode is None else (cls == ("E" if requested_mode == "Empty" else "W"))
+        early_len_error = ret == PE("InvalidStringLength") and not rec["events"] and not rec["prefix_test"]
+        if early_len_error:
+            if any(good_for(c) for c in classes):
+                bad.append("a well-sized input (%s, request %s) is rejected with InvalidStringLength" % (classes, req))
             kinds.add("InvalidStringLength")
+            continue
+        if not all(good_for(c) for c in classes) or len(classes) != 1:
+            bad.append("a path that goes on to decode is taken for lengths %s with request %s (length tests %s)" % (
+                classes, req, [(t[0], sym.fmt(t[1]), t[2]) for t in lt]))
+            continue
+        mode = "Empty" if classes[0] == "E" else "WithVersion"
+        if rec["mode"] not in (None, mode):
+            bad.append("mode %s decided for length class %s" % (rec["mode"], classes[0]))
             continue
         # ---- prefix
         pt = rec["prefix_test"]
